@@ -154,6 +154,10 @@ func readMessage(b []byte, wantType uint32) (*parsedMsg, []problem) {
 		if m.Flags&fVersion == 0 && !bytes.Equal(m.Version, make([]byte, 8)) {
 			add("version", "nonzero-without-flag", fmt.Sprintf("%x", m.Version))
 		}
+		// MS-NLMP 2.2.2.10: NTLMRevisionCurrent MUST be NTLMSSP_REVISION_W2K3 (0x0F)
+		if m.Flags&fVersion != 0 && m.Version[7] != 0x0F {
+			add("version", "revision", fmt.Sprintf("VERSION negotiated and the Version field is %x: NTLMRevisionCurrent is %#02x, not 0x0F", m.Version, m.Version[7]))
+		}
 	}
 	return m, ps
 }
